@@ -49,10 +49,11 @@ func (k Keeper) AddEarnedFee(ctx sdk.Context, provider sdk.AccAddress, fee sdk.C
 	earnedFees, _ := k.GetEarnedFees(ctx, provider)
 	k.SetEarnedFees(ctx, provider, earnedFees.Add(earnedFee...))
 
-	// add the owner's earned fees
-	owner, _ := k.GetOwner(ctx, provider)
-	ownerEarnedFees, _ := k.GetOwnerEarnedFees(ctx, owner)
-	k.SetOwnerEarnedFees(ctx, owner, ownerEarnedFees.Add(earnedFee...))
+	// add the owner's earned fees (a provider without an owner, e.g. a module service, has no owner tally)
+	if owner, found := k.GetOwner(ctx, provider); found {
+		ownerEarnedFees, _ := k.GetOwnerEarnedFees(ctx, owner)
+		k.SetOwnerEarnedFees(ctx, owner, ownerEarnedFees.Add(earnedFee...))
+	}
 
 	return nil
 }
